@@ -69,6 +69,7 @@ type coordCfg struct {
 	Deltas    []time.Duration // advance events
 	CommitTPs []string        // partitions offered to commit events
 	Resub     bool            // offer rejoin with a changed subscription
+	StoreFaults bool          // timing run only: an event arms ONE failing PutConsumerGroup (transient metadata-store write error)
 	Timing    bool            // timing run: reduced request alphabet (join{a}/rejoin/sync/heartbeat/leave, current generation only), finer advances
 	Depth     int
 }
@@ -124,10 +125,11 @@ const (
 	coordKLeave
 	coordKAdv
 	coordKFailover
+	coordKFailPut // the next PutConsumerGroup of the metadata store fails once
 )
 
 var coordKindNames = map[coordKind]string{coordKJoin: "join", coordKRejoin: "rejoin", coordKSync: "sync", coordKHb: "hb", coordKCommit: "commit",
-	coordKLeave: "leave", coordKAdv: "adv", coordKFailover: "failover"}
+	coordKLeave: "leave", coordKAdv: "adv", coordKFailover: "failover", coordKFailPut: "failput"}
 
 func (k coordKind) String() string { return coordKindNames[k] }
 
@@ -210,6 +212,8 @@ func (e coordEv) String() string {
 		return fmt.Sprintf("leave(%s)", coordMemberName(e.M))
 	case coordKAdv:
 		return fmt.Sprintf("adv(%.1fs)", float64(e.D)/1000)
+	case coordKFailPut:
+		return "next-group-write-fails"
 	}
 	return e.K.String()
 }
@@ -525,6 +529,23 @@ func coordClusterMeta() metadata.ClusterMetadata {
 
 var coordClusterMetaOnce = coordClusterMeta()
 
+// coordFaultStore fails exactly one PutConsumerGroup after it was armed (a transient write error of
+// the metadata store); everything else is the wrapped store.
+type coordFaultStore struct {
+	metadata.Store
+	armed bool
+	fails int
+}
+
+func (s *coordFaultStore) PutConsumerGroup(ctx context.Context, g *metadatapb.ConsumerGroup) error {
+	if s.armed {
+		s.armed = false
+		s.fails++
+		return fmt.Errorf("verif: injected metadata-store write failure")
+	}
+	return s.Store.PutConsumerGroup(ctx, g)
+}
+
 func coordNewStore(mode string) metadata.Store {
 	mem := metadata.NewInMemoryStore(coordClusterMetaOnce)
 	if mode == "codec" {
@@ -705,6 +726,9 @@ func coordNewWorld(cfg *coordCfg, orc coordOracle) *coordWorld {
 	w := &coordWorld{cfg: cfg, orc: orc, vals: map[string]int64{}}
 	w.led.M = map[string]*coordLedMember{}
 	w.store = coordNewStore(cfg.Store)
+	if cfg.StoreFaults {
+		w.store = &coordFaultStore{Store: w.store}
+	}
 	w.startCoordinator()
 	w.cur = coordProject(w.c, w.store)
 	w.curOff = coordReadOffsets(w.store)
@@ -797,6 +821,9 @@ func (w *coordWorld) Enabled() []coordEv {
 		if p.Exists {
 			for _, d := range w.cfg.Deltas {
 				evs = append(evs, coordEv{K: coordKAdv, D: int16(d / time.Millisecond)})
+			}
+			if fs, ok := w.store.(*coordFaultStore); ok && !fs.armed && fs.fails == 0 {
+				evs = append(evs, coordEv{K: coordKFailPut})
 			}
 		}
 		return evs
@@ -984,6 +1011,12 @@ func (w *coordWorld) step(e coordEv, judged bool) (string, []xstate.Violation) {
 	}
 	if e.K == coordKAdv {
 		return w.advance(e, judged)
+	}
+	if e.K == coordKFailPut {
+		if fs, ok := w.store.(*coordFaultStore); ok {
+			fs.armed = true
+		}
+		return "failput armed#trivial", nil
 	}
 	st := &coordStep{Ev: e, K: e.K.String(), At: time.Now(), Pre: w.cur, PreOff: w.curOff}
 	var viol []xstate.Violation
@@ -1312,6 +1345,11 @@ func (w *coordWorld) Canon() string {
 	for _, tp := range coordAllTPs {
 		fmt.Fprintf(&b, "%d,", w.curOff[tp])
 	}
+	if fs, ok := w.store.(*coordFaultStore); ok {
+		// after a failed write the store and the coordinator's memory differ: never merge such a state
+		// with one where they agree
+		fmt.Fprintf(&b, "sf%t/%d,", fs.armed, fs.fails)
+	}
 	if !p.Exists {
 		b.WriteString("|nogroup")
 		return b.String()
@@ -1437,6 +1475,12 @@ func coordRunCheck(t *testing.T, id string, mk func() coordOracle, rule string, 
 			d = v
 		}
 		plan.Runs = append([]*coordCfg{coordTimingCfg(d, live, issued)}, plan.Runs...)
+		if id == "C13" {
+			// the same alphabet plus one transient failure of a group write of the metadata store
+			sf := coordTimingCfg(d, 2, 2)
+			sf.StoreFaults = true
+			plan.Runs = append([]*coordCfg{sf}, plan.Runs...)
+		}
 	}
 	var runsInfo []map[string]any
 	for _, cfg := range plan.NoMergeRuns { // first, so that a deadline cannot skip it (shard 0 only, small)
@@ -1444,7 +1488,7 @@ func coordRunCheck(t *testing.T, id string, mk func() coordOracle, rule string, 
 	}
 	for _, cfg := range plan.Runs {
 		res := coordExplore(t, rep, cfg, mk, deadline)
-		info := map[string]any{"store": cfg.Store, "depth": cfg.Depth, "max_live": cfg.MaxLive, "max_issued": cfg.MaxIssued, "resubscribe": cfg.Resub, "timing_alphabet": cfg.Timing,
+		info := map[string]any{"store": cfg.Store, "depth": cfg.Depth, "max_live": cfg.MaxLive, "max_issued": cfg.MaxIssued, "resubscribe": cfg.Resub, "timing_alphabet": cfg.Timing, "store_write_fault": cfg.StoreFaults,
 			"commit_partitions": cfg.CommitTPs, "deltas_ms": coordDeltasMs(cfg), "new_states_per_depth": res.Levels}
 		if res.Capped != "" {
 			rep.Cap(fmt.Sprintf("%s depth %d: %s", cfg.Store, cfg.Depth, res.Capped))
@@ -1485,7 +1529,7 @@ func coordNontrivial(obs string) bool { return !strings.HasSuffix(obs, "#trivial
 func coordExplore(t *testing.T, rep *vh.Report, cfg *coordCfg, mk func() coordOracle, deadline time.Time) xstate.Result[coordEv] {
 	nviol := map[string]int{}
 	res := xstate.Run(xstate.Options[coordEv]{
-		Config: coordShardCfg(xstate.Config{MaxDepth: cfg.Depth, Deadline: deadline}, fmt.Sprintf("%s-d%d-r%t-t%t", cfg.Store, cfg.Depth, cfg.Resub, cfg.Timing)),
+		Config: coordShardCfg(xstate.Config{MaxDepth: cfg.Depth, Deadline: deadline}, fmt.Sprintf("%s-d%d-r%t-t%t-sf%t", cfg.Store, cfg.Depth, cfg.Resub, cfg.Timing, cfg.StoreFaults)),
 		Build:  func() xstate.System[coordEv] { return coordNewWorld(cfg, mk()) },
 		Wrap:   coordBubble(t),
 		Found: func(f xstate.Found[coordEv]) {
